@@ -22,6 +22,8 @@ import numpy as np
 from harness.core import Prop, CACHE, cz, cfloat, clist, coption, cbool
 
 import porepy as pp
+from porepy.applications.md_grids.model_geometries import SquareDomainOrthogonalFractures
+from porepy.numerics.nonlinear import line_search as _line_search
 
 # ---------------------------------------------------------------------------------------
 # TimeManager glue (same conventions as the C09 check: error enum <- exception messages)
@@ -169,18 +171,43 @@ class _Flow(pp.SinglePhaseFlow):
         return np.array(self._spec()["ic"], dtype=float)
 
 
-class _Newton(pp.NewtonSolver):
-    """The real solver; only records what solve() returned and the state it left."""
+class _FracFlow(SquareDomainOrthogonalFractures, _Flow):
+    """The same on the unit square (2 x 2 cells) with one or two orthogonal fractures: several
+    grids, interfaces and variables (pressure per subdomain, interface fluxes), so that the
+    global solution vector consists of many blocks."""
+
+    def meshing_arguments(self):
+        return {"cell_size": 0.5}
+
+    def ic_values_pressure(self, sd):
+        ic = self._spec()["ic"]
+        return np.array([ic[i % len(ic)] for i in range(sd.num_cells)], dtype=float)
+
+
+class _SolveLog:
+    """Mixin for the real solvers; only records what solve() returned and the state left."""
 
     def solve(self, model):
         log = model._c10
         try:
             ret = super().solve(model)
+        except KeyError:
+            log.end_solve(["store", "KeyErr"])
+            raise
         except (ValueError, IndexError) as e:
             log.end_solve(["raised", _err_code(e)])
             raise
         log.end_solve(bool(ret))
         return ret
+
+
+class _Newton(_SolveLog, pp.NewtonSolver):
+    pass
+
+
+class _LineSearchNewton(_SolveLog, _line_search.LineSearchNewtonSolver):
+    """Residual-based line search (shares solve() and all hooks with NewtonSolver; only the
+    increment of an iteration differs)."""
 
 
 class _Log:
@@ -193,21 +220,37 @@ class _Log:
         self.last_out = None
         self.last_failed = 0
 
-    # the raw python dictionaries of the (single) variable on the (single) grid
+    # The stored dictionaries, seen as dictionaries index -> GLOBAL vector: every block
+    # (variable on a grid / interface) must hold the same keys; the global vector of a key is
+    # what the real EquationSystem.get_variable_values returns for it.  Also probes aliasing:
+    # no two stored arrays may share memory (the model has value semantics).
     def dump(self):
-        sds = self.m.mdg.subdomains(return_data=True)
-        assert len(sds) == 1 and self.m.mdg.num_interfaces() == 0
-        names = {v.name for v in self.m.equation_system.variables}
-        assert len(names) == 1
-        name = names.pop()
-        data = sds[0][1]
-        out = {}
-        for key, loc in (("it", pp.ITERATE_SOLUTIONS), ("ts", pp.TIME_STEP_SOLUTIONS)):
-            if loc in data and name in data[loc]:
-                out[key] = [[int(k), [float(x) for x in v]]
-                            for k, v in sorted(data[loc][name].items())]
-            else:
+        m = self.m
+        es = m.equation_system
+        out = {"alias": None}
+        arrays = []
+        for key, loc, kw in (("it", pp.ITERATE_SOLUTIONS, "iterate_index"),
+                             ("ts", pp.TIME_STEP_SOLUTIONS, "time_step_index")):
+            keysets = []
+            for var in es.variables:
+                g = var.domain
+                data = (m.mdg.subdomain_data(g) if isinstance(g, pp.Grid)
+                        else m.mdg.interface_data(g))
+                d = data.get(loc, {}).get(var.name)
+                keysets.append(None if d is None else sorted(int(k) for k in d))
+                if d is not None:
+                    arrays += [(f"{key}[{k}]:{var.name}@{var.id}", a) for k, a in d.items()]
+            if all(ks is None for ks in keysets):
                 out[key] = None
+                continue
+            if any(ks != keysets[0] for ks in keysets):
+                raise AssertionError(f"blocks hold different index sets at {loc}: {keysets}")
+            out[key] = [[k, [float(x) for x in es.get_variable_values(**{kw: k})]]
+                        for k in keysets[0]]
+        for a in range(len(arrays)):
+            for b in range(a + 1, len(arrays)):
+                if np.shares_memory(arrays[a][1], arrays[b][1]):
+                    out["alias"] = [arrays[a][0], arrays[b][0]]
         return out
 
     def end_solve(self, ret):
@@ -245,7 +288,10 @@ def _instrument(model, max_solves):
                    "attempt": _clock(tm, None)}      # the clock the solve is attempted at
         log.solves.append(log.cur)
         log.last_out = None
-        return orig_before()
+        r = orig_before()
+        log.cur["ad_dt"] = float(model.ad_time_step.parse(model.mdg))
+        log.cur["num_iteration_reset"] = int(model.nonlinear_solver_statistics.num_iteration)
+        return r
 
     model.before_nonlinear_loop = before_nonlinear_loop
 
@@ -253,7 +299,14 @@ def _instrument(model, max_solves):
 
     def after_nonlinear_iteration(nonlinear_increment):
         log.cur["incs"].append([float(x) for x in nonlinear_increment])
-        r = orig_iter(nonlinear_increment)
+        try:
+            r = orig_iter(nonlinear_increment)
+        except KeyError:
+            log.cur["iters"].append(log.dump())
+            log.cur["iter_err"] = "KeyErr"
+            raise
+        # aliasing probe: the array handed in must not be referenced by the store
+        nonlinear_increment[:] = 977.0
         log.cur["iters"].append(log.dump())
         return r
 
@@ -266,6 +319,10 @@ def _instrument(model, max_solves):
             log.last_out = None
             try:
                 r = orig()
+            except KeyError:
+                log.cur["snap"] = {"store": log.dump(),
+                                   "clock": _clock(tm, log.last_out or ["unit"])}
+                raise
             except (ValueError, IndexError) as e:
                 log.cur["snap"] = {"store": log.dump(),
                                    "clock": _clock(tm, ["err", _err_code(e)])}
@@ -333,20 +390,26 @@ def _dump(d):
 
 
 def _logged(s):
-    """One attempted time step as a [logged] record.  The time-step slot during the Newton
+    """One attempted time step as a [logged2] record.  The time-step slot during the Newton
     iterations is sent only when it differs from the previously sent one (None = identical,
     checked bitwise here; Coq then compares the model's slot with the carried literal)."""
     snap = s["snap"] if s["snap"] is not None else s["end"]
-    hooks = s.get("hooks", [s["hook"]] if s["hook"] else [])
-    conv = (hooks == ["conv"]) if hooks else bool(s["ret"] is True)
+    hooks = s.get("hooks", [])
+    if s.get("iter_err"):
+        kind = "LIterErr"
+    elif hooks:
+        kind = "LConv" if hooks == ["conv"] else "LFail"
+    else:                                   # neither hook ran: say what solve() claimed
+        kind = "LConv" if s["ret"] is True else "LFail"
     clock = dict(snap["clock"])
     if clock["out"] is None:
         clock["out"] = ["unit"]
     its = []
     for d in s["iters"]:
         its.append(f"({_slot(d['it'])}, {_ts_delta(s, d)})")
-    return ("(Build_logged " + cbool(conv) + " " + clist(its) + " " + _state_term(clock) + " "
-            + _out_term(clock["out"]) + " " + _dump(snap["store"]) + ")")
+    return ("(Build_logged2 " + kind + " " + _state_term(s["attempt"]) + " " + _f(s["ad_dt"])
+            + " " + clist(its) + " " + _state_term(clock) + " " + _out_term(clock["out"]) + " "
+            + _dump(snap["store"]) + ")")
 
 
 def _ts_delta(s, d):
@@ -376,10 +439,14 @@ def _stop_term(s):
         return "Finished"
     if s[0] == "out":
         return "OutOfEvents"
+    if s[0] == "store":
+        return f"(RaisedStore C08.{s[1]})"
     return f"(RaisedClock C09.{s[1]})"
 
 
 def _solve_inputs(s):
+    if s.get("iter_err"):        # the last iteration raised before check_convergence ran
+        s = dict(s, flags=s["flags"] + [[False, False]])
     n = min(len(s["incs"]), len(s["flags"]))
     return clist(range(n), lambda i: f"({_vec(s['incs'][i])}, {cbool(s['flags'][i][0])}, "
                                      f"{cbool(s['flags'][i][1])})")
@@ -394,65 +461,86 @@ class C10(Prop):
     id = "C10"
     props_file = "Props/C10.v"
     preamble = ("From Coq Require Import List ZArith Bool PrimFloat.\nImport ListNotations.\n"
-                "From PP Require Model.C08 Model.C09.\nFrom PP Require Import Model.C10.\n")
-    n_cases = (26, 400)
+                "From PP Require Model.C08 Model.C09.\nFrom PP Require Import Model.C10 Model.C10_ext.\n")
+    n_cases = (22, 400)
     design_ref = "DESIGN.md §5 C10, Appendix B (NewtonSolver.solve, TimeManager)"
+    extra_targets = ("Model/C10_ext.vo",)
     level_text = (
         "Coq theorems over an executable transcription of the time loop of "
         "run_time_dependent_model, NewtonSolver.solve (loop bound, converged/diverged flags, "
         "divergence taking precedence) and the SolutionStrategy hooks "
         "(initialize_previous_iterate_and_time_step_values, after_nonlinear_iteration, "
         "after_nonlinear_convergence + update_solution, after_nonlinear_failure), composed from "
-        "the C08 storage model (one iterate slot, one time-step slot) and the C09 clock model. "
-        "For EVERY verdict pattern (which iteration of which solve is flagged converged / "
-        "diverged / both, iteration budgets running out), every sequence of Newton increments, "
-        "every window depth >= 1 and every TimeManager configuration: no storage call raises; "
-        "after every converged step time-step index 0 = iterate index 0 = previous accepted "
-        "solution + that solve's increments; after every failed step that does not raise, "
-        "iterate 0 = time-step 0 = last accepted solution; at any stop the time-step window "
-        "is the most-recent-first suffix of the accepted solutions (initial values last, "
-        "truncated to the depth); the clock of the product run IS the C09 time loop on the "
-        "verdict-derived events, hence (C09_main) a finished run ends within isclose of the "
-        "final time without exceeding it and the only exceptions are the recomputation-budget "
-        "ones. Tied to the code on every run: a real compressible SinglePhaseFlow model is run "
-        "through the real run_time_dependent_model/NewtonSolver/TimeManager with injected "
-        "verdict patterns and Coq (binary64 instance) must reproduce every stored vector after "
-        "every hook and every clock state bit for bit from the logged increments.")
+        "the C08 storage model (one iterate slot, one time-step slot of the global vector) and "
+        "the C09 clock model. For EVERY verdict pattern (which iteration of which solve is "
+        "flagged converged / diverged / both, iteration budgets running out), every sequence of "
+        "Newton increments, every TimeManager configuration and every pair of index arrays "
+        "whose set is 0..m-1 (any order, repetitions; shift depth = array length): no storage "
+        "call raises; after every converged step time-step index 0 = iterate index 0 = previous "
+        "accepted solution + that solve's increments; after every failed step that does not "
+        "raise, iterate 0 = time-step 0 = last accepted solution; after every step and at any "
+        "stop the time-step dictionary is the most-recent-first window of the accepted solutions "
+        "(initial values last); the clock of the product run IS the C09 time loop on the "
+        "verdict-derived events, hence (C09_main, reals) a finished run ends within isclose of "
+        "the final time without exceeding it and the only exceptions are the "
+        "recomputation-budget ones; and the loop TERMINATES: the number of attempted time steps "
+        "of any run is bounded by a number depending only on the configuration "
+        "(C10_terminates), the model's out-of-inputs stop only occurs when the scripted inputs "
+        "are shorter than that (C10_never_starved). Tied to the code on every run: real "
+        "compressible SinglePhaseFlow models (one grid, or a fractured unit square with several "
+        "grids, interfaces and variables) are run through the real run_time_dependent_model / "
+        "NewtonSolver or LineSearchNewtonSolver / TimeManager with injected verdict patterns, and "
+        "Coq (binary64 instance) must reproduce from the logged increments, bit for bit, every "
+        "stored global vector after every after_nonlinear_iteration and hook, every clock "
+        "state, the clock and ad_time_step at before_nonlinear_loop, and storage exceptions.")
     level_note = (
-        "P-core. NOT modelled/proved: the linear algebra inside a Newton iteration (the "
-        "increment of every iteration and the verdict of check_convergence are inputs; the tie "
-        "feeds the logged ones), before_nonlinear_loop/update_derived_quantities/"
-        "save_data_time_step (no effect on the stored vectors or the clock; covered only by the "
-        "tie), floating-point rounding in the clock theorems (over the reals, as C09), "
-        "termination of the time loop (the theorems cover every finite prefix of inputs). The "
-        "global solution vector is ONE variable on ONE grid (how EquationSystem dissects a "
-        "multi-variable vector is C05's subject). Storage theorems are for an abstract vector "
-        "type with an arbitrary binary += ; the tie instantiates it with lists of binary64 "
-        "numbers. Trusted: Coq kernel, vm_compute, PrimFloat = IEEE binary64 of numpy; the "
-        "harness (method wrappers that log, literal emission); instance-independence of the "
-        "polymorphic clock model (C09). Theorem guards: iterate_indices = 0..dI-1 and "
-        "time_step_indices = 0..dT-1 with dI, dT >= 1 (other index sets are executed by the "
-        "model and tied, not covered by the theorems); constant_dt = False for the clock "
-        "corollary.")
+        "P-core. NOT modelled/proved: the linear algebra inside a Newton iteration and the line "
+        "search (the increment of every iteration and the verdict of check_convergence are "
+        "inputs; the tie feeds the logged ones); update_derived_quantities / "
+        "update_time_dependent_ad_arrays / save_data_time_step (no effect on the stored "
+        "solution vectors or the clock; covered only by the tie, which would see any change of "
+        "the stored vectors); floating-point rounding in the clock theorems (over the reals, as "
+        "C09). The storage theorems are polymorphic in the vector type, the binary += and the "
+        "clock arithmetic, so they hold verbatim of the binary64 instance the tie executes; "
+        "only the clock corollaries (C10_ends_at_final_time, C10_terminates) are about exact "
+        "real arithmetic. The global solution vector is modelled as ONE value: that every block "
+        "(variable on a grid) of a multi-variable model keeps the same index set and that the "
+        "global vector is the concatenation of the blocks is checked by the harness on the "
+        "real EquationSystem (get_variable_values per index), not proved (block dissection is "
+        "C05's subject). Index arrays with holes (e.g. [0, 2], [0, 2, 3] -> KeyError) are "
+        "executed by the model and tied, not covered by the theorems. Trusted: Coq kernel, "
+        "vm_compute, PrimFloat = IEEE binary64 of numpy; the harness (method wrappers that log, "
+        "literal emission); instance-independence of the polymorphic clock model (C09).")
     technique = ("Coq proof (refinement of both storage slots to C08 windows + simulation of "
-                 "the C09 time loop, by induction over all solve/verdict sequences) + "
-                 "vm_compute bit-exact execution correspondence on a real nonlinear model + "
-                 "direct oracle on the logged run")
-    rule = ("random verdict patterns for a real compressible SinglePhaseFlow run (2-6 cells, "
-            "window depths 1-3, schedules of 2-4 points, adaptive TimeManager with dyadic or "
-            "decimal data): any subset of solves fails, by a diverged flag at a random "
-            "iteration, by both flags at once, or by exhausting the iteration budget; runs of "
-            "consecutive failures up to and beyond recomp_max; failure on the first step and on "
-            "the step that reaches the final time; converged iteration counts on the lower / "
-            "upper adaptation thresholds; non-trivial = at least one failed and one converged "
-            "solve, or a raise")
-    trusted = ["method wrappers of the harness log what the model stores (raw data dictionaries)",
+                 "the C09 time loop by induction over all solve/verdict sequences + a potential "
+                 "argument for termination) + vm_compute bit-exact execution correspondence on "
+                 "real nonlinear models + direct oracle on the logged run")
+    rule = ("random verdict patterns for real compressible SinglePhaseFlow runs: nx x 1 grids "
+            "(2-6 cells) or the unit square with one or two fractures (several grids, "
+            "interfaces, variables; 10-21 dofs), NewtonSolver or residual line search, window "
+            "depths 1-3, index arrays also permuted / with repetitions / with holes (KeyError "
+            "branch), schedules of 2-4 points, adaptive TimeManager with dyadic or decimal "
+            "data, exact power-of-two scalings of the time axis (2^-8 .. 2^20) and of the "
+            "pressures (2^-30 .. 2^3): any subset of solves fails, by a diverged flag at a "
+            "random iteration, by both flags at once, by exhausting the iteration budget or by "
+            "converging one iteration too late; convergence exactly in the last permitted "
+            "iteration (max_iterations + 1); runs of consecutive failures up to and beyond "
+            "recomp_max with the state checked after each; failure on the first step and on "
+            "the step that reaches the final time; iteration counts on the lower / upper "
+            "adaptation thresholds; the increment array handed to after_nonlinear_iteration "
+            "is overwritten afterwards and all stored arrays are probed for shared memory "
+            "after every hook; non-trivial = at least one failed and one converged solve, or "
+            "a raise")
+    trusted = ["method wrappers of the harness log what the model stores (raw data dictionaries "
+               "for the key sets, EquationSystem.get_variable_values for the global vectors)",
                "PrimFloat = IEEE binary64 arithmetic of CPython/numpy (elementwise +=)",
                "instance-independence of the polymorphic clock model (reals / binary64), as C09"]
-    assumptions = ["one variable on one grid (global vector = that variable's vector)",
-                   "index sets 0..d-1 in the theorems", "exact real arithmetic in the clock "
-                   "corollary; C09_main's hypotheses (valid, well-separated schedule, dt_init "
-                   "inside the first interval, 0 < dt_min, tolerances >= 0)"]
+    assumptions = ["the global vector is one value (blocks of a multi-variable model keep equal "
+                   "index sets: checked on every dump, not proved)",
+                   "index arrays whose set is 0..m-1 in the theorems (holes: tie only)",
+                   "exact real arithmetic in the clock corollaries; C09_main's hypotheses (valid, "
+                   "well-separated schedule, dt_init inside the first interval, 0 < dt_min, "
+                   "tolerances >= 0)"]
 
     # ------------------------------------------------------------------ generation
     def _tm_args(self, rng, sched, dyadic):
@@ -541,6 +629,31 @@ class C10(Prop):
                 "fail_last": rng.choice([0, 0, 0, 1, 1, 2]),
                 "max_solves": max_solves,
             }
+            # several grids / variables, line-search solver
+            case["geom"] = rng.choice(["line"] * 15 + ["frac0", "frac0", "frac1", "frac1", "frac01"])
+            case["solver"] = rng.choice(["newton"] * 4 + ["linesearch"])
+            # index arrays in another order / with repetitions (len() is the shift depth)
+            r = rng.random()
+            if r < 0.15:
+                for key in ("iti", "tsi"):
+                    idx = list(case[key])
+                    if rng.random() < 0.5:
+                        idx = idx + [rng.choice(idx)]
+                    rng.shuffle(idx)
+                    case[key] = idx
+            # exact power-of-two scalings of the time axis and of the pressures
+            tk = rng.choice([0, 0, 0, 0, -8, 6, 20])
+            if tk:
+                f = 2.0 ** tk
+                case["sched"] = [x * f for x in case["sched"]]
+                a["dt_init"] *= f
+                a["dt_min_max"] = [x * f for x in a["dt_min_max"]]
+                case["bc"][1] /= f
+            pk = rng.choice([0, 0, 0, 0, -30, -10, 3])
+            if pk:
+                f = 2.0 ** pk
+                case["ic"] = [x * f for x in case["ic"]]
+                case["bc"] = [x * f for x in case["bc"]]
             k = rng.randrange(40)
             if k == 0:
                 case["maxit"] = 0                    # exactly one iteration per solve
@@ -558,6 +671,10 @@ class C10(Prop):
             elif k == 6:
                 case["pattern"] = []
                 case["fail_last"] = 0                # no failure at all
+            elif k == 7:
+                case["tsi"] = [0, 2, 3]              # update_solution's shift raises KeyError
+            elif k == 8:
+                case["iti"] = [0, 2, 3]              # after_nonlinear_iteration raises KeyError
             yield case
 
     # ------------------------------------------------------------------ implementation
@@ -577,10 +694,22 @@ class C10(Prop):
                 "time_manager": tm, "times_to_export": [], "c10": spec,
                 "material_constants": {
                     "fluid": pp.FluidComponent(compressibility=case["compressibility"])},
-                "max_iterations": case["maxit"], "nonlinear_solver": _Newton,
+                "max_iterations": case["maxit"],
+                "nonlinear_solver": (_LineSearchNewton if case.get("solver") == "linesearch"
+                                     else _Newton),
                 "folder_name": os.path.join(CACHE, "tmp", "c10_viz"),
             }
-            model = _Flow(params)
+            if case.get("solver") == "linesearch":
+                # a finite residual tolerance makes the line search (and the residual
+                # assembly after every iteration) actually run
+                params.update({"global_line_search": True, "nl_convergence_tol_res": 1e-14,
+                               "residual_line_search_num_steps": 3})
+            geom = case.get("geom", "line")
+            if geom == "line":
+                model = _Flow(params)
+            else:
+                params["fracture_indices"] = {"frac0": [0], "frac1": [1], "frac01": [0, 1]}[geom]
+                model = _FracFlow(params)
             model.prepare_simulation()
             log = _instrument(model, case["max_solves"])
             res = {"ctor": None, "cfg": _cfg(tm), "t0": float(tm.time), "init": log.dump()}
@@ -591,6 +720,8 @@ class C10(Prop):
                 stop = ["finished"]
             except _OutOfSolves:
                 stop = ["out"]
+            except KeyError:
+                stop = ["store", "KeyErr"]
             except (ValueError, IndexError) as e:
                 stop = ["raised", _err_code(e)]
             for s in log.solves:
@@ -605,10 +736,10 @@ class C10(Prop):
     def in_scope(self, case, res):
         if res.get("skip") or res.get("ctor"):
             return False
-        if case["iti"] != list(range(len(case["iti"]))) or not case["iti"]:
-            return False
-        if case["tsi"] != list(range(len(case["tsi"]))) or not case["tsi"]:
-            return False
+        # index sets: any order, repetitions allowed, but no holes (0..m-1)
+        for idx in (case["iti"], case["tsi"]):
+            if not idx or sorted(set(idx)) != list(range(len(set(idx)))):
+                return False
         c = res["cfg"]
         s = [float(x) for x in case["sched"]]
         if c["constant"] or not (c["dt_min"] > 0 and c["rtol"] >= 1e-12 and c["atol"] >= 0):
@@ -631,6 +762,15 @@ class C10(Prop):
                     return v
             return None
 
+        dumps = [res["init"], res["final"]["store"]]
+        for s in res["solves"]:
+            dumps += s["iters"] + [x["store"] for x in (s["snap"], s["end"]) if x]
+        for d in dumps:
+            if d.get("alias"):
+                return (f"alias:the stored arrays {d['alias'][0]} and {d['alias'][1]} share "
+                        f"memory")
+        if res["stop"][0] == "store":
+            return f"raise:a storage call raised {res['stop'][1]}"
         v0 = slot0(res["init"], "it")
         if v0 is None or slot0(res["init"], "ts") != v0:
             return "init:initial values are not stored at iterate 0 and time step 0"
@@ -681,9 +821,9 @@ class C10(Prop):
                 return f"final:the run finished at time {t!r}, final time {tf!r}"
             d = len(case["tsi"])
             hist = list(reversed(accepted))
-            hist = (hist + [v0] * d)[:d]
+            hist = (hist + [v0] * (len(set(case["tsi"])) - 1))[:d]
             got = res["final"]["store"]["ts"] or []
-            if [k for k, _ in got] != list(range(d)) or [v for _, v in got] != hist:
+            if [k for k, _ in got] != list(range(len(hist))) or [v for _, v in got] != hist:
                 return (f"history:time-step window {got} differs from the {d} most recent "
                         f"accepted solutions {hist}")
         elif res["stop"][0] == "raised" and res["stop"][1] not in (
@@ -698,7 +838,7 @@ class C10(Prop):
         sched = clist(case["sched"], _f)
         iti, tsi = clist(case["iti"], cz), clist(case["tsi"], cz)
         if res["ctor"]:
-            return (f"agree {cz(case['maxit'])} {_args(case)} {sched} {iti} {tsi} [] [] "
+            return (f"agree2 {cz(case['maxit'])} {_args(case)} {sched} {iti} {tsi} [] [] "
                     f"(inr C09.{res['ctor']})")
         v0 = None
         for k, v in res["init"]["it"] or []:
@@ -718,7 +858,7 @@ class C10(Prop):
         inputs = clist(res["solves"], _solve_inputs)
         exp = (f"(inl ({_cfg_term(res['cfg'])}, {_dump(res['init'])}, {clist(logged)}, "
                f"{_stop_term(res['stop'])}))")
-        return (f"agree {cz(case['maxit'])} {_args(case)} {sched} {iti} {tsi} {_vec(v0)} "
+        return (f"agree2 {cz(case['maxit'])} {_args(case)} {sched} {iti} {tsi} {_vec(v0)} "
                 f"{inputs} {exp}")
 
     def coq_diag(self, case, res):
@@ -735,7 +875,7 @@ class C10(Prop):
         if res.get("skip") or res.get("ctor"):
             return False
         rets = [s["ret"] for s in res["solves"]]
-        return (True in rets and False in rets) or res["stop"][0] == "raised"
+        return (True in rets and False in rets) or res["stop"][0] in ("raised", "store")
 
     def finding_key(self, case, res, why):
         return "C10-" + why.split(":", 1)[0]
